@@ -3,20 +3,31 @@
 (* a fixed family (keys chosen so that ties straddle the cut), every         *)
 (* N in 0..MaxLimit, filter on/off, one or two roots, bfs/dfs: one scenario  *)
 (* with the unlimited unordered run ("all") and the limited run ("lim").     *)
-EXTENDS WorldC05, Lang, Json, FiniteSets
+(* arch = TRUE: the same over W5z (W5 plus two zip archives whose member     *)
+(* names interleave and tie with the names of ordinary entries) with the     *)
+(* `archives` option, selecting and ordering by name (rows are judged as     *)
+(* texts, members have no node of their own).                                *)
+EXTENDS WorldC05, Lang, Json, FiniteSets, TLC
 
 CONSTANTS MaxLimit
-VARIABLES ord, lim, wh, roots, dfs, phase
-vars == <<ord, lim, wh, roots, dfs, phase>>
+VARIABLES ord, lim, wh, roots, dfs, arch, phase
+vars == <<ord, lim, wh, roots, dfs, arch, phase>>
 
 K(c, d) == [col |-> c, desc |-> d]
 Orderings == { <<>>, <<K("size", FALSE)>>, <<K("size", TRUE)>>, <<K("name", FALSE)>>,
                <<K("hardlinks", TRUE), K("name", FALSE)>>, <<K("modified", FALSE), K("size", TRUE)>>,
                <<K("ext", TRUE)>>, <<K("length(name)", FALSE)>> }
 
-Init == ord = <<>> /\ lim = 0 /\ wh = FALSE /\ roots = 1 /\ dfs = FALSE /\ phase = "start"
+ArchOrderings == { <<>>, <<K("name", FALSE)>>, <<K("name", TRUE)>> }
+ZM(nm) == [name |-> nm, mode |-> 33188, dos |-> <<2017, 5, 1, 10, 20, 30>>, method |-> "stored", content |-> <<[byte |-> 97, count |-> 3]>>, isdir |-> FALSE]
+ZipNode(i, p, nm, members) == N(i, p, "file", nm, <<>>, 420, 0, 0, Day2, 0, -3) @@ [zip |-> members, iszip |-> TRUE]
+W5z == [nodes |-> W5.nodes \o << ZipNode(23, 0, <<"k",".","z","i","p">>, << ZM("a.txt"), ZM("m1"), ZM("z"), ZM("B.log"), ZM("l05"), ZM("zz") >>),
+                                  ZipNode(24, 5, <<"j",".","z","i","p">>, << ZM("a2"), ZM("m0"), ZM("m1"), ZM("0") >>) >>]
+Init == ord = <<>> /\ lim = 0 /\ wh = FALSE /\ roots = 1 /\ dfs = FALSE /\ arch = FALSE /\ phase = "start"
 Choose == /\ phase = "start"
-          /\ ord' \in Orderings /\ lim' \in 0 .. MaxLimit /\ wh' \in BOOLEAN /\ roots' \in {1, 2} /\ dfs' \in BOOLEAN
+          /\ \/ arch' = FALSE /\ ord' \in Orderings
+             \/ arch' = TRUE /\ ord' \in ArchOrderings
+          /\ lim' \in 0 .. MaxLimit /\ wh' \in BOOLEAN /\ roots' \in {1, 2} /\ dfs' \in BOOLEAN
           /\ phase' = "done"
 Next == Choose
 Spec == Init /\ [][Next]_vars
@@ -24,22 +35,22 @@ Spec == Init /\ [][Next]_vars
 RECURSIVE OrderText(_)
 OrderText(i) == IF i > Len(ord) THEN ""
                 ELSE (IF i > 1 THEN ", " ELSE "") \o ord[i].col \o (IF ord[i].desc THEN " desc" ELSE "") \o OrderText(i + 1)
-WhereAtom == A1("size", "gt", IntL(2), "")
+WhereAtom == IF arch THEN A1("name", "ne", TextL(<<"m","0">>), "") ELSE A1("size", "gt", IntL(2), "")
 WhereText == IF wh THEN " where " \o CondText(WhereAtom) ELSE ""
-Mode == IF dfs THEN " dfs" ELSE ""
+Mode == (IF arch THEN " archives" ELSE "") \o (IF dfs THEN " dfs" ELSE "")
 FromText == IF roots = 1 THEN " from '.'" \o Mode ELSE " from 'd1'" \o Mode \o ", 'h'" \o Mode
-Base == "select path" \o FromText \o WhereText
+Base == (IF arch THEN "select name" ELSE "select path") \o FromText \o WhereText
 Query == Base \o (IF ord = <<>> THEN "" ELSE " order by " \o OrderText(1)) \o " limit " \o ToString(lim) \o " into list"
 
 RECURSIVE KeysClass(_)
 KeysClass(i) == IF i > Len(ord) THEN "" ELSE (IF i > 1 THEN "," ELSE "") \o ord[i].col \o (IF ord[i].desc THEN "-" ELSE "+") \o KeysClass(i + 1)
-Scenario == [prop |-> "C06", world |-> "W5",
-             class |-> (IF ord = <<>> THEN "unordered" ELSE "ordered=" \o KeysClass(1)) \o "/roots=" \o ToString(roots)
+Scenario == [prop |-> "C06", world |-> IF arch THEN "W5z" ELSE "W5", arch |-> arch,
+             class |-> (IF arch THEN "archives/" ELSE "") \o (IF ord = <<>> THEN "unordered" ELSE "ordered=" \o KeysClass(1)) \o "/roots=" \o ToString(roots)
                        \o (IF dfs THEN "/dfs" ELSE "/bfs") \o (IF wh THEN "/where" ELSE "") \o (IF lim = 0 THEN "/limit0" ELSE ""),
              keys |-> ord, limit |-> lim, prefix |-> IF roots = 1 THEN "./" ELSE "",
              env |-> [tz |-> "UTC", cwd |-> 0],
-             runs |-> << [tag |-> "all", ncols |-> 1, argv |-> << Base \o " into list" >>],
-                         [tag |-> "lim", ncols |-> 1, argv |-> << Query >>] >>]
-EmitWorld == (phase = "start") => PrintT(<<"WORLD", ToJson([key |-> "W5", world |-> W5])>>)
+             runs |-> << [tag |-> "all", ncols |-> 1, chars |-> arch, argv |-> << Base \o " into list" >>],
+                         [tag |-> "lim", ncols |-> 1, chars |-> arch, argv |-> << Query >>] >>]
+EmitWorld == (phase = "start") => (PrintT(<<"WORLD", ToJson([key |-> "W5", world |-> W5])>>) /\ PrintT(<<"WORLD", ToJson([key |-> "W5z", world |-> W5z])>>))
 Emit == phase = "done" => PrintT(<<"REPLAY", ToJson(Scenario)>>)
 =============================================================================
